@@ -69,7 +69,7 @@ def ridge_items(chk, quick):
 def run(chk):
     quick = chk.tier == "quick"
     fc = s5.enumerate_formspace(chk, facets=True)
-    sel = s5.sample_cases(fc, 34 if quick else 400, chk.seed, max_cost=60 if quick else 150)
+    sel = s5.sample_cases(fc, 34 if quick else 300, chk.seed, max_cost=60 if quick else 100)
     # derivative tables on every facet of the tensor-product cells (their facets differ in which reference
     # derivative is constant along them)
     der = [c for c in fc if c["term"] in ("flux", "avgflux") and c["cell"] in ("quadrilateral", "hexahedron", "prism") and c["rule"] != "vertex"]
